@@ -43,3 +43,15 @@ type Refs struct {
 	A *[]int
 	B []*int
 }
+
+// Doc embeds a pointer to a struct: it stays a pointer field, and has to be
+// allocated before anything is stored through it.
+type Base struct {
+	ID   int
+	Name string
+}
+
+type Doc struct {
+	*Base
+	Title string
+}
